@@ -128,14 +128,14 @@ pub fn run(tier: Tier) -> CheckResult {
                 if *n >= 3 && (gi + ctx + layout) % 3 != 0 {
                     continue;
                 }
-                cases.push(GraphCase { n: *n, mask: *mask, root: if (gi + ctx) % 4 == 0 { Root::ReturnOk } else { Root::Param }, ctx, deviate: None, layout, derive_style: (gi + ctx) % 4, zod: true });
+                cases.push(GraphCase { n: *n, mask: *mask, root: if (gi + ctx) % 4 == 0 { Root::ReturnOk } else { Root::Param }, ctx, deviate: None, layout, derive_style: (gi + ctx) % 4, zod: true, naming: 0 });
             }
         }
         let n_edges = mask.count_ones() as usize;
         if n_edges >= 2 && *n <= 3 {
             for e in 0..n_edges {
                 for c in 1..CONTEXTS.len() {
-                    cases.push(GraphCase { n: *n, mask: *mask, root: Root::Param, ctx: 0, deviate: Some((e, c)), layout: (gi + e) % 3, derive_style: 0, zod: true });
+                    cases.push(GraphCase { n: *n, mask: *mask, root: Root::Param, ctx: 0, deviate: Some((e, c)), layout: (gi + e) % 3, derive_style: 0, zod: true, naming: 0 });
                 }
             }
         }
